@@ -36,6 +36,26 @@ def r04a(model: Model, rr: RuleResult):
         rr.ok("rule text: sub <components> by <target>;")
     else:
         rr.bad(g, g.node, "ligature rule text is not 'sub <components> by <target>;'", construct="generate_fea: rule text")
+    # census of the statement kinds generate_fea can emit: one ligature lookup, nothing that restructures it
+    kinds = {}
+    for c in calls_in(g):
+        if callee_tail(c) == "append" and isinstance(c.func, ast.Attribute) and norm(c.func.value) == "rules" and c.args:
+            a = c.args[0]
+            frag = "".join(x.value for x in ast.walk(a) if isinstance(x, ast.Constant) and isinstance(x.value, str))
+            tok = frag.strip().split(" ")[0].strip("{};") if frag.strip() else ""
+            kinds.setdefault(tok, []).append(c)
+    allowed = {"", "languagesystem", "feature", "sub", "}", "#"}
+    restructuring = {"subtable", "lookup", "lookupflag", "ignore", "script", "language", "useExtension"}
+    for tok, cs in kinds.items():
+        if tok in allowed or tok.startswith("#"):
+            continue
+        if tok in restructuring:
+            rr.bad(g, cs[0], f"generate_fea emits a '{tok}' statement: the ligature rules no longer form one lookup in one subtable, so a sequence whose first "
+                   f"glyph is already covered by an earlier subtable can become unreachable", construct=f"generate_fea: emits '{tok}'")
+        else:
+            raise AnalysisError(f"generate_fea emits an unknown statement kind {tok!r}")
+    if {"feature", "sub", "languagesystem"} <= set(kinds):
+        rr.ok(f"generate_fea emits only: {sorted(k for k in kinds if k)}")
     w = model.func("write_glyphmap", "_glyphmappings")
     y = [c for c in calls_in(w) if norm(c.func) == "GlyphMapping"]
     if y and norm(y[0].args[-1]) == "glyph_name(cps)" and norm(y[0].args[-2]) == "cps":
